@@ -1615,7 +1615,7 @@ def _upgen_unit():
                     ('I1', ForAll([k], Implies(Or(V(k), H(k)), R.gen(k)), patterns=[V(k), H(k)])),
                     ('I2', ForAll([s], Implies(R.seed(s), Or(V(s), H(s))), patterns=[R.seed(s)])),
                     ('I3', ForAll([i, j], Implies(And(V(i), R.step(i, j)), Or(V(j), H(j))), patterns=[MultiPattern(V(i), R.nxt(i, j))])),
-                    ('I4', And(seen >= -1, Or(seen == -1, V(seen)), ForAll([k], Implies(V(k), And(0 <= k, k <= seen)), patterns=[V(k)]))),
+                    ('I4', And(Or(seen < 0, V(seen)), ForAll([k], Implies(V(k), And(0 <= k, k <= seen)), patterns=[V(k)]))),
                     ('I5', ForAll([k], Implies(H(k), k >= seen), patterns=[H(k)])),
                     ('I6', ForAll([k], Y(k) == And(V(k), R.inT(k)), patterns=[Y(k), V(k)])),
                 ]
